@@ -25,7 +25,7 @@ U64Max == Sub(Pow2(64), One)
 U128Max == Sub(Pow2(128), One)
 
 Elapsed(a, b, f) ==
-  IF Lt(b, a) THEN Zero ELSE Div(Mul(Sub(b, a), PicosPerSec), f)
+  IF Lt(b, a) THEN Zero ELSE Div(MulPow10(Sub(b, a), 12), f)
 
 \* nanos is a native integer below 10^9.
 FromDuration(secs, nanos) ==
